@@ -921,26 +921,23 @@ class ProtobufReader(Converter):
         lifted_problem: unified_planning.model.Problem,
     ) -> unified_planning.engines.CompilerResult:
         problem = self.convert(result.problem, lifted_problem.environment)
-        map: Dict[
-            unified_planning.model.Action,
-            Tuple[unified_planning.model.Action, List[unified_planning.model.FNode]],
-        ] = {}
-        for grounded_action in problem.actions:
-            original_action_instance = self.convert(
-                result.map_back_plan[grounded_action.name], lifted_problem
-            )[1]
-            map[grounded_action] = (
-                original_action_instance.action,
-                original_action_instance.actual_parameters,
-            )
+        # the keys of map_back_plan are the printed action instances of the compiled
+        # problem (the action name alone for an action without parameters)
+        original_instances = {
+            key: self.convert(ai_msg, lifted_problem)[1]
+            for key, ai_msg in result.map_back_plan.items()
+        }
+
+        def map_back_action_instance(ai: ActionInstance) -> ActionInstance:
+            original = original_instances[str(ai)]
+            return ActionInstance(original.action, original.actual_parameters)
+
         engine_metrics = None
         if bool(result.metrics):
             engine_metrics = dict(result.metrics)
         return unified_planning.engines.CompilerResult(
             problem=problem,
-            map_back_action_instance=partial(
-                unified_planning.engines.compilers.utils.lift_action_instance, map=map
-            ),
+            map_back_action_instance=map_back_action_instance,
             engine_name=result.engine.name,
             metrics=engine_metrics,
             log_messages=[self.convert(log) for log in result.log_messages],
